@@ -56,4 +56,13 @@ patch('graph/graphalg/dom.go', "\t\tfor _, pred := range preds {\n\t\t\trunner :
       "\t\t\t\t// pred is unreachable from root.\n\t\t\t\tcontinue\n\t\t\t}\n\t\t\trunner := pred\n")
 # 11 doubly-bounded KDE image series
 patch('stats/kde.go', "return y(x-(n+1)*d+w) + y(x-(n+1)*d)", "return y(x-(n+1)*d-w) + y(x-(n+1)*d)")
+# 12 QuantileCI, approximate branch: never trim to an empty interval (confidence <= 0)
+patch('stats/quantileci.go',
+      "if aBiased := cdf(l, rBiased); aBiased >= confidence && aBiased < res.Confidence {",
+      "if aBiased := cdf(l, rBiased); rBiased > l && aBiased >= confidence && aBiased < res.Confidence {")
+patch('stats/quantileci.go',
+      "\t\tr = floorInt(math.Ceil(r1-0.5)+0.5) + 1\n",
+      "\t\tr = floorInt(math.Ceil(r1-0.5)+0.5) + 1\n\t\tif r <= l {\n"
+      "\t\t\t// [l1, r1] is a single half-integer point (or the\n\t\t\t// confidence is not positive). Keep one bucket.\n"
+      "\t\t\tr = l + 1\n\t\t}\n")
 print("patched", root)
